@@ -54,7 +54,7 @@ PROPS = {
                          thorough=r'^k_task_\w+_cnt_|^k_glue_\w+_cnt_|^k_api_par2_\w+_(count|for_each)_n'),
         trusted_base=[T1, T5, T6, A64, ARITH, RSCHED, STUBS, MODEL],
         assumptions=[TASK_BOUND],
-        explanation='Verus (unbounded): Runner::reduce sums every worker count exactly once. Verus (unbounded, real text with RW19-RW21): in the three count kernel tasks the worker's count is the sum of the survivors of all chunks it pulled (no overflow while the total fits in usize). Kani (bounded): each count kernel task (incl. the hand-rolled nested loop of filtermap_fil_cnt) returns the number of survivors among exactly the elements delivered to it; glue and count()/for_each() through the API agree with std; for_each calls its closure once per survivor. ' + MC_TEXT,
+        explanation='Verus (unbounded): Runner::reduce sums every worker count exactly once. Verus (unbounded, real text with RW19-RW21): in the three count kernel tasks the count of a worker is the sum of the survivors of all chunks it pulled (no overflow while the total fits in usize). Kani (bounded): each count kernel task (incl. the hand-rolled nested loop of filtermap_fil_cnt) returns the number of survivors among exactly the elements delivered to it; glue and count()/for_each() through the API agree with std; for_each calls its closure once per survivor. ' + MC_TEXT,
     ),
     'C05': dict(
         level='model_checking', verus_units=[],
